@@ -62,6 +62,7 @@ language_map = {
 }
 
 from yalafi.defs import InitModule, Macro, LanguageToken, Environ, MacroToken
+from yalafi.defs import ActionToken
 
 require_packages = []
 
@@ -103,8 +104,10 @@ def translate_lang(lang):
 
 def h_foreignlanguage(parser, buf, mac, args, delim, pos):
     lang = translate_lang(parser.get_text_expanded(args[1]).strip())
+    # NB: the action token allows to remove a line only closing the argument
     return ([LanguageToken(pos, lang=lang, brk=foreignlang_break)] + args[2]
-                        + [LanguageToken(args[2][-1].pos, back=True)])
+                        + [ActionToken(args[2][-1].pos),
+                            LanguageToken(args[2][-1].pos, back=True)])
 
 def h_selectlanguage(parser, buf, mac, args, delim, pos):
     lang = translate_lang(parser.get_text_expanded(args[0]).strip())
